@@ -192,6 +192,17 @@ func TestC01(t *testing.T) {
 // and once with its capabilities hidden, so that the engine evaluates it.
 func c01BackendCheck(c C02Case) (r evid.Result) {
 	c.Metric = false
+	// A selector names labels of the stream - for this backend, of the container (C02). The labels
+	// the engine derives from a record itself (msg = the line, level, trace and span id) exist
+	// only on its side: a selector on one of them has no backend-side counterpart to compare
+	// with, and C02 says which containers it selects.
+	for _, m := range c.Sel {
+		switch m.Label {
+		case "msg", "level", "trace_id", "span_id", "severity":
+			r.Class(true, "selector-on-a-record-derived-label")
+			return r
+		}
+	}
 	build := func() *fakedocker.Daemon {
 		d := &fakedocker.Daemon{}
 		mid := c.Params.Start + (c.Params.End-c.Params.Start)/2
